@@ -27,6 +27,16 @@ RI(re, pr, ire, ipr) == [reac |-> re, prod |-> pr, ireac |-> ire, iprod |-> ipr]
 Cat14 == Cat12 \o <<
     RI(M1("A", 1), M1("B", 1), M1("C", 1), <<>>),   \* 13  A + (C) -> B
     RI(M1("D", 1), M1("E", 1), <<>>, M1("E", 1)) >> \* 14  D -> E + (E)
+(* the four-part identity of a reaction: reactions over the same active stoichiometry A -> B that differ in *)
+(* exactly one inactive part (and the plain one); "the same reaction" in add / == / concatenate must look at  *)
+(* all four parts, so no two of these are duplicates of one another                                          *)
+CatParts == <<
+    R(M1("A", 1), M1("B", 1)),                               \* A -> B
+    RI(M1("A", 1), M1("B", 1), <<>>, M1("C", 1)),            \* A -> B + (C)
+    RI(M1("A", 1), M1("B", 1), M1("C", 1), <<>>),            \* A + (C) -> B
+    RI(M1("A", 1), M1("B", 1), <<>>, M1("D", 1)),            \* A -> B + (D)
+    RI(M1("A", 1), M1("B", 1), M1("C", 1), M1("C", 1)),      \* A + (C) -> B + (C)
+    RI(M1("A", 1), M1("B", 1), M1("C", 2), <<>>) >>          \* A + (2 C) -> B
 Q_Dot == {"graph", "dot"}
 (* the chained shape that needs transitive fusion in split: greedy grouping of A->B, C->D,     *)
 (* E->F, C+F->G, B+E->H leaves three provisional groups chained only through the last one       *)
